@@ -40,12 +40,14 @@ CLAIMED = [
     seq("C11", "sync and unsync arenas driven in lock-step by the same driver; TLC compares results, extents, allocated/discarded/remaining "
         "and free-list snapshots after every call; both are also compared with the single ArenaSeq model.", "6 C11"),
     seq("C16", "Construction over reserved 0..17,63..65,4095,4096 x capacities around the prefix x 3 backends x 2 flavours; accessor table, "
-        "data offset formulas, reserved immutability and cross-backend byte equality (unified layout) checked by TLC.", "6 C16"),
+        "data offset formulas, reserved immutability and cross-backend byte equality (unified layout) checked by TLC; after every reopen the accessors "
+        "again (a read-only arena's capacity never exceeds the file); every other arena value (Clone) reports the same mode, options and counters.", "6 C16"),
     seq("C17", "rewind over boundary-dense positions (u32/i64 extremes, state-dependent anchors from the model) in many shapes, dev+release; "
         "clear compared with a fresh arena under random subsequent histories (bytes included).", "6 C17"),
     seq("C18", "truncate over n in 0..4*cap after random histories on Vec/anon/file, then fitting/non-fitting allocations; modelled "
         "per backend in ArenaSeq.", "6 C18"),
-    seq("C20", "discarded() monotonicity, discard_freelist accounting, too-small and Freelist::None releases evaluated per transition/event.", "6 C20"),
+    seq("C20", "discarded() monotonicity, discard_freelist accounting, too-small and Freelist::None releases (no segment below the minimum segment size in force ever appears with a release) evaluated per "
+        "transition/event; extreme minimum segment sizes in dev and release builds.", "6 C20"),
 ]
 
 SYNC_NOTE = ("Trusted: TLC; the hand-written ArenaSync micro-op table (every access of every replayed schedule is matched against it by "
